@@ -279,6 +279,49 @@ func relaxCounts(s *gen.SpecM) {
 var plainIdent = regexp.MustCompile(`^[a-z][a-z0-9]*$`)
 var reservedName = map[string]bool{"for": true, "if": true, "in": true, "null": true, "true": true, "false": true}
 
+// sameTopStructure compares, for the block-collection specs at the top level of the spec
+// tree, the value decoded with partially unknown inputs against the concrete one: the
+// collection built from the blocks must be known and have the same number of members.
+func sameTopStructure(ms *gen.SpecM, abs, conc cty.Value) string {
+	abs, _ = abs.Unmark()
+	conc, _ = conc.Unmark()
+	type part struct {
+		name string
+		s    *gen.SpecM
+		a, c cty.Value
+	}
+	var parts []part
+	if !abs.IsKnown() {
+		return "the whole result is unknown"
+	}
+	switch ms.Kind {
+	case gen.SObject:
+		for _, n := range ms.FieldNames() {
+			parts = append(parts, part{n, ms.Fields[n], abs.GetAttr(n), conc.GetAttr(n)})
+		}
+	case gen.STuple:
+		for i, e := range ms.Elems {
+			parts = append(parts, part{fmt.Sprint(i), e, abs.Index(cty.NumberIntVal(int64(i))), conc.Index(cty.NumberIntVal(int64(i)))})
+		}
+	default:
+		parts = append(parts, part{"result", ms, abs, conc})
+	}
+	for _, p := range parts {
+		switch p.s.Kind {
+		case gen.SBlockList, gen.SBlockTuple, gen.SBlockMap, gen.SBlockObject:
+			a, _ := p.a.Unmark()
+			cc, _ := p.c.Unmark()
+			if !a.IsKnown() {
+				return fmt.Sprintf("the %s of %q blocks at %s is unknown although the number of blocks is known", p.s.Kind, p.s.Name, p.name)
+			}
+			if !a.IsNull() && !cc.IsNull() && a.LengthInt() != cc.LengthInt() {
+				return fmt.Sprintf("the %s of %q blocks at %s has %d members, concretely %d", p.s.Kind, p.s.Name, p.name, a.LengthInt(), cc.LengthInt())
+			}
+		}
+	}
+	return ""
+}
+
 func staticSiblingOfDyn(b *ast.Body) bool {
 	types := map[string]int{}
 	for _, it := range b.Items {
@@ -367,12 +410,69 @@ func TestC18_Expand(t *testing.T) {
 				c.Done(false, "")
 				return
 			}
+			// a collection of known length with unknown element values still yields one block
+			// per element: the structure built from the blocks stays known, only the values
+			// that read the unknown elements become unknown
+			if !gdiags.HasErrors() && rapid.IntRange(0, 3).Draw(t, "partially_unknown_elements") == 0 {
+				pctx := evalCtx(sc)
+				for name, v := range ctx.Variables {
+					pctx.Variables[name] = v
+				}
+				changed := false
+				for _, name := range sc.Names {
+					v := sc.Vals[name]
+					ty := v.Type()
+					if v.IsNull() || !v.IsKnown() || !(ty.IsListType() || ty.IsMapType()) || v.LengthInt() == 0 || ty.ElementType().IsCollectionType() {
+						continue
+					}
+					// (elements that are themselves collections are left alone: an inner dynamic block
+					// iterating over an unknown element legitimately has an unknown number of blocks)
+					var keys, vals []cty.Value
+					for it := v.ElementIterator(); it.Next(); {
+						k, ev := it.Element()
+						keys = append(keys, k)
+						if rapid.Bool().Draw(t, "unknown_element") {
+							ev = cty.UnknownVal(ev.Type())
+							changed = true
+						}
+						vals = append(vals, ev)
+					}
+					var nv cty.Value
+					if ty.IsListType() {
+						nv = cty.ListVal(vals)
+					} else {
+						m := map[string]cty.Value{}
+						for i, k := range keys {
+							m[k.AsString()] = vals[i]
+						}
+						nv = cty.MapVal(m)
+					}
+					if ctx.Variables[name].IsMarked() {
+						nv = nv.Mark("m")
+					}
+					pctx.Variables[name] = nv
+				}
+				if changed {
+					c.Class("partially_unknown_elements")
+					var pgot cty.Value
+					var pdiags hcl.Diagnostics
+					c.Guard("Decode(Expand) with unknown elements", func() { pgot, pdiags = hcldec.Decode(dynblock.Expand(f.Body, pctx), spec, pctx) })
+					if !pdiags.HasErrors() {
+						if msg := consistent(pgot, got, "result"); msg != "" {
+							c.Failf("unknown-elements-inconsistent", "with some element values unknown the result %#v is not consistent with the concrete result %#v: %s", pgot, got, msg)
+						}
+						if msg := sameTopStructure(ms, pgot, got); msg != "" {
+							c.Failf("unknown-elements-structure", "with some element values of known-length collections unknown, %s (abstract %#v, concrete %#v)", msg, pgot, got)
+						}
+					}
+				}
+			}
 			// reference: expand, then decode
 			env := refEnv(sc)
 			ex := ref.ExpandDyn(tree, env)
 			want := ref.DecResult{Err: ex.Err, Unspec: ex.Unspec}
 			if !ex.Err && ex.Unspec == "" {
-				want = ref.Decode(ms, ex.Body, nil, env)
+				want = ref.DecodeWith(ms, ex.Body, nil, env, ref.DecodeOpts{EmptyMultiLabelMapQuirk: hx.IsKnown("C18", "blockmap-multilabel-empty-type")})
 				c.Set("expanded", ast.DumpBody(ex.Body))
 			}
 			known := func() bool {
@@ -381,7 +481,7 @@ func TestC18_Expand(t *testing.T) {
 						return true
 					}
 				}
-				return hasMultiLabelBlockMap(ms) && c.Known("blockmap-multilabel-empty-type")
+				return false
 			}
 			switch {
 			case want.Unspec != "":
